@@ -209,10 +209,38 @@ def pattern_captures(pattern: ast.pattern) -> dict[str, tuple[str, ...]]:
 
 
 def kw(call: ast.Call, name: str) -> ast.expr | None:
+    """The argument passed for ``name``: by keyword, or - for constructor calls of package dataclasses, which the
+    normaliser annotates with their field names - positionally."""
     for k in call.keywords:
         if k.arg == name:
             return k.value
+    by = getattr(call, "_by_field", None)
+    if by is not None:
+        return by.get(name)
     return None
+
+
+def ctor_args(call: ast.Call) -> list[ast.expr] | None:
+    """Arguments of an annotated dataclass constructor call in field order (a prefix of the fields), else None."""
+    by = getattr(call, "_by_field", None)
+    order = getattr(call, "_field_order", None)
+    if by is None or order is None:
+        return None
+    out = []
+    for nm in order:
+        if nm in by:
+            out.append(by[nm])
+        else:
+            break
+    return out if len(out) == len(by) else None
+
+
+def ctor_text(call: ast.Call) -> str:
+    """Canonical text of a constructor call: positional in field order when that is possible."""
+    args = ctor_args(call)
+    if args is None:
+        return src(call)
+    return f"{src(call.func)}({', '.join(src(a) for a in args)})"
 
 
 def arg_or_kw(call: ast.Call, index: int, name: str) -> ast.expr | None:
